@@ -1,6 +1,6 @@
 """C03 search worker: expands wikitext with the REAL Expander of the snapshot (PYTHONPATH is set by core.run_impl).
 
-stdin : JSON lines {"id", "text", "lang", "db": {name: text}, "pagename"[, "limit": recursion limit, "budget": max
+stdin : JSON lines {"id", "text" (or "text_rle": [[piece, repeat], ..]), "lang", "db": {name: text}, "pagename"[, "limit": recursion limit, "budget": max
         number of template-call dispatches, "cpu_limit": seconds]}   (or {"id", "introspect": true})
 stdout: one JSON line per request:
         {"id", "outcome": "ok"|"exc"|"nonstr"|"timeout"|"budget", "exc": "Type: msg"[:200], "cpu": process-time seconds,
@@ -218,7 +218,8 @@ def run_one(req):
             kw = {}
             if req.get("limit") is not None:
                 kw["recursion_limit"] = int(req["limit"])
-            exp = Expander(req["text"], pagename=req.get("pagename", "thispage"), wikidb=d, **kw)
+            text = req["text"] if "text" in req else "".join(s * n for s, n in req["text_rle"])
+            exp = Expander(text, pagename=req.get("pagename", "thispage"), wikidb=d, **kw)
             counter = _CountingResolver(exp.resolver, req.get("budget"))
             exp.resolver = counter
             out = exp.expandTemplates()
